@@ -737,6 +737,12 @@ func c03Literals(rnd *Rand, n int) []c03Lit {
 		add("-"+hex, projAny(-v), "negative hexadecimal integer")
 		add("-"+bin, projAny(-v), "negative binary integer")
 		add("- "+dec, projAny(-v), "minus, blank, decimal integer")
+		add("0"+dec, projAny(v), "decimal integer with a leading zero")
+		add("-00"+dec, projAny(-v), "negative decimal integer with leading zeros")
+		add(fmt.Sprintf("0x00%X", v), projAny(v), "hexadecimal integer with leading zeros, upper-case digits")
+		add(fmt.Sprintf("0b00%b", v), projAny(v), "binary integer with leading zeros")
+		add(dec+".0", projAny(float64(v)), "integer value spelled as a float")
+		add(dec+"e0", projAny(float64(v)), "integer value with an exponent is a float")
 	}
 	add("-9223372036854775808", projAny(int64(-1<<63)), "the smallest int64")
 	add("-0x8000000000000000", projAny(int64(-1<<63)), "the smallest int64 in hex")
@@ -766,6 +772,8 @@ func c03Literals(rnd *Rand, n int) []c03Lit {
 		}
 		s := strings.ToUpper(strconv.FormatFloat(f, 'e', -1, 64))
 		add(s, projAny(f), "float literal with E")
+		add("0"+strconv.FormatFloat(f, 'e', -1, 64), projAny(f), "float literal with a leading zero")
+		add(strings.Replace(strconv.FormatFloat(f, 'e', -1, 64), "e+", "e+0", 1), projAny(f), "float literal with a zero-padded exponent")
 	}
 	// strings: the value first, then a spelling with the language's escapes
 	alphabet := []rune{'a', 'b', 'n', 't', 'x', '0', ' ', '"', '\'', '\\', '\n', '\t', '\r', '\b', '\f', 'é', '世', '`', '#', '/', '*'}
